@@ -48,3 +48,16 @@ claim("C29", "property-based testing of call histories: index-shifting edits and
 claim("C30", "property-based testing of call histories: generated additions with boundary values (NaN payloads, v128, memory64/shared limits) against the identity-based model",
       "Generated-input search: the entity reached through each returned ID must have exactly the requested type/limits/bytes/initialiser bits; initialiser replacement changes only that global.",
       _edit_note, "DESIGN.md 5/C30")
+_low_note = "Trusted: wasmparser decoder (structure-checking operator reader) and validator; the reference lowering, a short harness function written from the wording of C15/C21 and never derived from library output."
+claim("C15", "property-based testing: generated bodies x generated before/after/alternate/removal plans through every injection API path; decoded output compared with an independent reference lowering",
+      "Generated-input search: valid generated modules x plans of 1-8 injections (several per site, final-end sites, all six API paths incl. the component iterator); every decoded function body must equal the reference lowering and nothing else may change; plans without alternates must validate.",
+      _low_note, "DESIGN.md 5/C15")
+claim("C21", "property-based testing: generated nested constructs x block-alternate plans (replacement or empty, block/loop/if/else) combined with plain injections outside the regions; decoded output compared with the reference lowering",
+      "Generated-input search over block-alternate plans on non-overlapping regions through every API path that accepts special modes; bodies must equal the reference lowering (construct removed through its matching end / else-arm removed with the end kept), no BUG log line.",
+      _low_note, "DESIGN.md 5/C21")
+claim("C22", "property-based testing: generated special-mode injections with unique marker payloads through every public API path; oracle = rejected at the call (panic) or marker present in the decoded output / construct gone, and no BUG log record",
+      "Generated-input search over the path x mode matrix (7 special modes x 6 paths, two thirds on applicable instructions, one third anywhere); every accepted injection must be reflected in the encoded module. The class 'semantic-after on a branch to the function label' is a listed known finding: steered around in the main domain, probed separately.",
+      "Trusted: wasmparser decoder; uniqueness of the i32.const marker payloads (markers start at 3001, generated constants are checked not to collide by construction of the payload search: exact operator text).", "DESIGN.md 5/C22")
+claim("C23", "property-based testing of call histories: generated tagged additions and tagged probes; oracle = exactly one side-effect record per tag with the item's content, none for parsed items, probe bodies resolved through the decoded output by identity",
+      "Stateful generated search over histories of tagged additions (types, imports, exports, functions, globals, memories, data) and tagged probes of every mode on identity-carrying bases, followed by pull_side_effects and encode; record set, record content and index space of probe bodies are compared with the model.",
+      _edit_note, "DESIGN.md 5/C23")
